@@ -1088,6 +1088,22 @@ def nested_grid(tier):
     def dfw(f, at):  # forward-mode derivative of an elementwise function
         return make_jvp(f)(at)(onp.ones(onp.shape(at)) if onp.shape(at) else 1.0)[1]
 
+    # an OUTER traced scalar meets an inner traced array in one binary operation, decided AT pinned values of the scalar
+    # (p == 2, 1, 0, -1, 3): value-based shortcuts on a traced operand (x ** p computed as square(x) when p == 2, x * p
+    # returned as x when p == 1, ...) lose the dependence on the outer variable
+    XP = onp.array([1.5, 0.5])
+    for pv in (2, 1, 0, -1, 3):
+        for iname, inner in (("rev", lambda f_, at: egrad(f_)(at)), ("fwd", dfw)):
+            for lab, body, orc in (("x ** p", lambda x, p: x ** p, lambda np, p: p * XP ** (p - 1)),
+                                   ("x * p * x", lambda x, p: x * p * x, lambda np, p: 2.0 * XP * p),
+                                   ("(x + p) * x", lambda x, p: (x + p) * x, lambda np, p: 2.0 * XP + p),
+                                   ("x * x / (p + 4)", lambda x, p: x * x / (p + 4.0), lambda np, p: 2.0 * XP / (p + 4.0)),
+                                   ("p ** x", lambda x, p: (p + 4.0) ** x, lambda np, p: (p + 4.0) ** XP * np.log(p + 4.0))):
+                c = Config("nested", "NEST pinned outer value p == %d: d/dx [%s] (inner %s) as a function of p" % (pv, lab, iname),
+                           lambda np, p, _b=body, _in=inner: _in(lambda x: _b(x, p), XP), [SC], 0, tags=("nested", "pinned"))
+                c.oracle = orc
+                c.pin_args = [(0, None, pv)]
+                out.append(c)
     # classic perturbation confusion: d/dx [ x * d/dy (x + y) |_{y=1} ] = 1
     n("x * d/dy(x+y) rev-in-rev", lambda np, x: x * egrad(lambda y: x + y)(onp.ones(2)), lambda np, x: x * 1.0, [R(2)])
     n("x * d/dy(x+y) fwd-in-fwd/rev", lambda np, x: x * dfw(lambda y: x + y, onp.ones(2)), lambda np, x: x * 1.0, [R(2)])
